@@ -162,5 +162,23 @@ CHECKS = {
         note="Per-document status codes are not assumed (metamorphic); an evaluation error without -b is not asserted.",
         design_ref="DESIGN.md §4 C20",
     ),
+    "C05": dict(
+        technique="model-based generation of API histories (Hypothesis) with a fresh-process oracle: every evaluation in a history vs the same evaluation alone in a process that has only imported the library",
+        category="exploration",
+        text="Generated histories of {Environment(runner class, package, annotations), compile+program, evaluate, re-evaluate} over pools built to touch shared state; each history "
+             "runs in a child forked from an import-only process; each evaluation is compared with the same (configuration, expression, bindings) evaluated alone in a fresh "
+             "forked process; caller's bindings unmodified; re-evaluation stable; failing histories minimised by greedy operation removal.",
+        note="lark's LALR analysis is loaded from a per-tree-class cache file in all processes alike (speed-up only); pools are finite (18 environments, 22 expressions, 20 binding sets).",
+        design_ref="DESIGN.md §4 C05",
+    ),
+    "C16": dict(
+        technique="schedule fuzzing: deterministic line-level thread scheduler (sys.settrace baton) with Hypothesis-generated preemption schedules, exhaustive single-preemption enumeration, plus free-running stress",
+        category="exploration",
+        text="2-4 threads each with its own Environment/program/bindings; exactly one runs at a time and is preempted only at Python line events inside celpy and transpiled code, at "
+             "generated step indexes (first preemption aimed at lines of evaluate/transpile/program/parse/result); every thread's outcomes equal its alone run. Thorough: every single "
+             "preemption point for five program pairs, <= 5 preemptions, 300 stress iterations.",
+        note="Line granularity (not bytecode), bounded preemptions, library code outside celpy unpreempted; stress is not reproducible and only supplements the scheduler.",
+        design_ref="DESIGN.md §4 C16",
+    ),
 }
 NOT_APPLICABLE = {}
